@@ -48,7 +48,25 @@ CHECKS = {
     'C13': {
         'category': 'exploration',
         'text': 'The real nodes.reduplicate is run on every DAG obtained from a forest with <= 6 nodes (7 thorough) by sharing one object at any set of structurally equal positions (incl. shared empty lists, whole shared trees) under a run-time contract: ids pairwise distinct over positions afterwards, rendered tokens unchanged, argument not modified, nodes that were already unique are the same objects.',
-        'note': 'Bounded stand-in only so far; call-site obligations (every input handed to Producer/TaskGenerator is parser output or a reduplicate result) are planned with the strategy contracts.',
-        'technique': 'run-time contract on the real function over an exhaustively enumerated domain (bounded stand-in)',
+        'note': 'reduplicate itself: bounded stand-in. Call-site obligations are proved on the real strategy code with abstract inputs: TREE(input) holds at every Producer(...) and TaskGenerator(...) construction, for the list ddmin hands to hierarchical, and is re-established by reduplicate after every adoption (loop invariants, all schedules). Assumed: parser output is a tree (fresh constructor calls), pool/event contracts.',
+        'technique': 'run-time contract on the real function over an enumerated domain (bounded) + loop-invariant VCs (z3) for the call sites',
+    },
+    'C01': {
+        'category': 'proof',
+        'text': 'The real reduce functions of both strategies, _check_seq/_check_par, _apply_mutator, _worker, Consumer.check, Producer.generate and cli.ddsmt_main are interpreted with abstract inputs (uninterpreted sort with ghost functions FLAT/ACC/AS/REDUP) and loop invariants; every result delivered by the pool is an arbitrary value satisfying the worker contract, so all completion orders and -j values are covered. Discharged: every call of write_smtlib_to_file writes a list the command accepted, to the output file only; the returned list is the last one written (or the input if nothing was written); workers report success only for the very list check_exprs accepted; the input file is only opened for reading; hybrid hands ddmin\'s result to hierarchical. The final lemma (file tokens == FLAT(c), ACC(FLAT(c)), deterministic command => matches golden) is a z3 lemma over these. A scripted-pool harness runs the real code natively as bounded cross-check and replay vehicle.',
+        'note': 'Assumed: multiprocessing pool/event/pickle contracts, renderers emit FLAT(x) (C07, bounded there), check_exprs true only for accepted token sequences (C09 proves the rule and that the checked file is the written one), command deterministic on token sequences.',
+        'technique': 'contract-based deductive verification: loop invariants + ghost state on the real strategy code, callee contracts at call sites, z3; native scripted-pool harness as bounded stand-in',
+    },
+    'C02': {
+        'category': 'proof',
+        'text': 'On the real strategy_hierarchical.reduce (loop invariants, all schedules by havocked results and flag reads): a pass is left (break) only at a point where the flag was never set during the sweep, the sweep started at node 0 and the input is the one the Producer was built from, which under the pool/producer/consumer contracts means every proposal of the pass was generated, checked and genuinely rejected; the returned input is the one the last pass ended on. The contracts used there are verified separately: Consumer.check returns the command\'s verdict whenever the flag is not seen set and reports aborted results as failures without runtime; Producer.generate yields exactly every proposal of every mutator for every BFS position > skip when the flag is clear, contains mutator failures, and every task carries the base (scripted mutators, inputs <= 3 nodes: shape-bounded part).',
+        'note': 'Assumed: imap_unordered ends only after every submitted task reported; Event semantics; last pass contains every enabled mutator is C14\'s claim. Producer.generate completeness is shape-bounded (tier S), the bookkeeping proof on reduce is unbounded. Prelude passes are not claimed to be subsumed by the last pass (BinaryReduction with ident=assert is deliberately different).',
+        'technique': 'contract-based deductive verification: loop invariants on the real reduce(), worker/producer contracts checked on the real methods, z3; scripted-pool native harness enumerating schedules as bounded stand-in',
+    },
+    'C05': {
+        'category': 'proof',
+        'text': 'Ghost chain over both strategies: at every write the written list is the accepted candidate, the candidate equals AS(base, sigma) for a task of the current batch/sweep, and the tokens of that base are the previously written tokens (or the input); a second success of the same sweep/batch, or one arriving after the flag/skip was set, cannot be adopted (the obligation base-is-chain-predecessor fails otherwise); ddmin restarts a batch only after the generator was updated; tasks generated by the feeder thread after an update are covered (base = new input, result discarded); workers and producers never write the abort flag; hybrid continues the chain. All completion orders by havoc.',
+        'note': 'Assumed: pool/event/pickle contracts (listed in evidence). Bounded cross-check: scripted pool exploring pull/run/deliver interleavings with stale flag views on 5 inputs x 6 commands.',
+        'technique': 'contract-based deductive verification: loop invariants + ghost chain state on the real code, z3; native scripted-pool harness as bounded stand-in',
     },
 }
